@@ -123,7 +123,7 @@ Proof.
     pose proof (digit_char_range up e He16) as Re. cbn zeta in Re. lia.
 Qed.
 
-Lemma from_str_radix_print signed up radix n : (radix = 10 \/ radix = 16) -> 0 <= n ->
+Lemma from_str_radix_print (signed : bool) up radix n : (radix = 10 \/ radix = 16) -> 0 <= n ->
   (if signed then n <= I64_MAX else n <= U64_MAX) ->
   from_str_radix signed radix (print_nat up radix n) = Ok n.
 Proof.
@@ -145,11 +145,20 @@ Proof.
     rewrite H2. reflexivity.
 Qed.
 
+Lemma from_str_radix_minus s : from_str_radix true 10 (45 :: s) =
+  match s with
+  | [] => Panic
+  | _ => match digits_acc 10 s 0 with
+         | None => Panic
+         | Some v => if (I64_MIN <=? - v) && (- v <=? I64_MAX) then Ok (- v) else Panic
+         end
+  end.
+Proof. reflexivity. Qed.
+
 Lemma from_str_radix_neg n : 0 < n <= - I64_MIN ->
   from_str_radix true 10 (45 :: print_nat false 10 n) = Ok (- n).
 Proof.
-  intros Hn. unfold from_str_radix. cbn [Z.eqb andb]. change (45 =? 43) with false. change (45 =? 45) with true.
-  cbn [andb]. rewrite print_nat_eq.
+  intros Hn. rewrite from_str_radix_minus. rewrite print_nat_eq.
   destruct (digits_of_spec 10 n ltac:(lia) ltac:(lia)) as (F & V & NE).
   rewrite (digits_acc_print false 10 _ (or_introl eq_refl) F 0), V.
   destruct (map (digit_char false) (digits_of 10 n)) eqn:EM.
@@ -168,6 +177,9 @@ Proof.
   rewrite E1, E2. now rewrite andb_false_r.
 Qed.
 
+Lemma no_hex_prefix_minus s : has_hex_prefix (45 :: s) = None.
+Proof. destruct s; reflexivity. Qed.
+
 (* well-formed integer literals *)
 Definition wf_i64 (l : ilit) : Prop :=
   match il_form l with
@@ -177,7 +189,7 @@ Definition wf_i64 (l : ilit) : Prop :=
 Definition wf_u64 (l : ilit) : Prop := 0 <= il_val l <= U64_MAX.
 Definition wf_h64 (l : hlit) : Prop := 0 <= hl_val l <= U64_MAX.
 
-Lemma hex_prefix_sh px dg v : has_hex_prefix (48 :: (if px then 88 else 120) :: print_nat dg 16 v) = Some (print_nat dg 16 v).
+Lemma hex_prefix_sh (px : bool) dg v : has_hex_prefix (48 :: (if px then 88 else 120) :: print_nat dg 16 v) = Some (print_nat dg 16 v).
 Proof. destruct px; reflexivity. Qed.
 
 Lemma convert_to_int_sh l : wf_i64 l -> convert_to_int (sh_ilit l) = Ok (il_val l).
@@ -185,14 +197,8 @@ Proof.
   destruct l as [f v]. unfold wf_i64, sh_ilit, convert_to_int. cbn [il_form il_val].
   destruct f as [|px dg]; intros H.
   - unfold print_dec. destruct (v <? 0) eqn:E.
-    + apply Z.ltb_lt in E. change (has_hex_prefix (45 :: print_nat false 10 (- v))) with
-        (match print_nat false 10 (- v) with
-         | c2 :: r => if (45 =? 48) && ((c2 =? 120) || (c2 =? 88)) then Some r else None
-         | [] => None end).
-      change (45 =? 48) with false. cbn [andb].
-      replace (match print_nat false 10 (- v) with _ :: _ => None | [] => None end) with (@None str)
-        by (destruct (print_nat false 10 (- v)); reflexivity).
-      rewrite from_str_radix_neg by (unfold I64_MIN in *; lia). f_equal. lia.
+    + apply Z.ltb_lt in E. rewrite no_hex_prefix_minus.
+      rewrite from_str_radix_neg by (unfold I64_MIN in *; lia). rewrite Z.opp_involutive. reflexivity.
     + apply Z.ltb_ge in E.
       destruct (print_nat_head false 10 v (or_introl eq_refl) E) as (c & r & EQ & _ & _ & _ & D).
       destruct (D eq_refl) as [D1 D2]. rewrite EQ, (no_hex_prefix_digits c r D1 D2), <- EQ.
@@ -263,9 +269,9 @@ Definition ident_b (s : str) : Prop := convert_to_bool_opt s = None.
 
 Lemma literals_int :
   (forall z, I64_MIN <= z <= I64_MAX -> convert_to_int (print_dec z) = Ok z) /\
-  (forall z px dg, 0 <= z <= I64_MAX -> convert_to_int (48 :: (if px then 88 else 120) :: print_nat dg 16 z) = Ok z) /\
+  (forall z (px : bool) dg, 0 <= z <= I64_MAX -> convert_to_int (48 :: (if px then 88 else 120) :: print_nat dg 16 z) = Ok z) /\
   (forall z, 0 <= z <= U64_MAX -> convert_to_uint (print_dec z) = Ok z) /\
-  (forall z px dg, 0 <= z <= U64_MAX -> convert_to_uint (48 :: (if px then 88 else 120) :: print_nat dg 16 z) = Ok z) /\
+  (forall z (px : bool) dg, 0 <= z <= U64_MAX -> convert_to_uint (48 :: (if px then 88 else 120) :: print_nat dg 16 z) = Ok z) /\
   (forall z up, 0 <= z <= U64_MAX -> from_str_radix false 16 (print_nat up 16 z) = Ok z).
 Proof.
   repeat split; intros.
@@ -281,3 +287,538 @@ Lemma literals_other :
   convert_to_f64 L_INF = FvInf /\ convert_to_f64 L_NegINF = FvNegInf /\ convert_to_f64 L_NaN = FvText L_NaN /\
   (forall f, wf_f f -> convert_to_f64 (sh_fval f) = f).
 Proof. repeat split; [apply bool_sh | apply f64_sh]. Qed.
+
+(* ---------------------------------------------------------------------------------------------- *)
+(* cursor combinators on rendered element lists                                                     *)
+
+Lemma bind_step {A B} (p : P A) (f : A -> P B) c a c' r :
+  p c = Ok (a, c') -> f a c' = r -> bindP p f c = r.
+Proof. intros H1 H2. unfold bindP. rewrite H1. exact H2. Qed.
+
+(* the next element (if any) carries none of the tags ts *)
+Definition hn (ts : list str) (c : list xml) : Prop :=
+  match peek c with Some (t, _, _, _) => mem_str t ts = false | None => True end.
+
+Lemma hn_nil ts : hn ts [].
+Proof. exact Logic.I. Qed.
+Lemma hn_elem ts t a ch k : mem_str t ts = false -> hn ts (Elem t a ch :: k).
+Proof. intros H. exact H. Qed.
+Lemma hn_ropt {A} ts tag (sh : A -> str) o k : mem_str tag ts = false -> hn ts k -> hn ts (ropt tag sh o k).
+Proof. intros H1 H2. destruct o; [exact H1 | exact H2]. Qed.
+Lemma hn_rmany {A} ts tag (sh : A -> str) l k : mem_str tag ts = false -> hn ts k -> hn ts (rmany tag sh l k).
+Proof. intros H1 H2. destruct l; [exact H2 | exact H1]. Qed.
+Lemma hn_rimm {L} ts tagI tagP (sh : L -> str) x k :
+  mem_str tagI ts = false -> mem_str tagP ts = false -> hn ts (rimm tagI tagP sh x k).
+Proof. intros H1 H2. destruct x; [exact H1 | exact H2]. Qed.
+Lemma hn_roimm {L} ts tagI tagP (sh : L -> str) o k :
+  mem_str tagI ts = false -> mem_str tagP ts = false -> hn ts k -> hn ts (roimm tagI tagP sh o k).
+Proof. intros H1 H2 H3. destruct o; [apply hn_rimm; assumption | exact H3]. Qed.
+
+Lemma mem_str_true t ts : mem_str t ts = true -> exists u, In u ts /\ t = u.
+Proof.
+  unfold mem_str. intros H. apply existsb_exists in H. destruct H as (u & Hu & E).
+  exists u. split; [exact Hu | apply str_eqb_eq; exact E].
+Qed.
+Lemma hn_incl ts ts' c : hn ts c -> forallb (fun t => mem_str t ts) ts' = true -> hn ts' c.
+Proof.
+  unfold hn. destruct (peek c) as [[[[t a] ch] r]|]; [|trivial]. intros H1 H2.
+  destruct (mem_str t ts') eqn:E; [|reflexivity].
+  apply mem_str_true in E. destruct E as (u & Hu & ->).
+  rewrite forallb_forall in H2. specialize (H2 u Hu). congruence.
+Qed.
+
+Ltac hn_tac :=
+  repeat first
+    [ apply hn_nil
+    | apply hn_elem; reflexivity
+    | apply hn_ropt; [reflexivity|]
+    | apply hn_rmany; [reflexivity|]
+    | apply hn_rimm; [reflexivity|reflexivity]
+    | apply hn_roimm; [reflexivity|reflexivity|]
+    | (eapply hn_incl; [eassumption|reflexivity]) ].
+
+Lemma parse_if_absent {A} tag (p : P A) c : hn [tag] c -> parse_if tag p c = Ok (None, c).
+Proof.
+  unfold parse_if, hn. destruct (peek c) as [[[[t a] ch] r]|]; [|reflexivity].
+  cbn. rewrite orb_false_r. intros ->. reflexivity.
+Qed.
+
+Lemma parse_if_present {A} tag (p : P A) attrs ch k v :
+  p (Elem tag attrs ch :: k) = Ok (v, k) -> parse_if tag p (Elem tag attrs ch :: k) = Ok (Some v, k).
+Proof.
+  intros H. unfold parse_if. cbn [peek]. rewrite str_eqb_refl. unfold mapP, bindP. rewrite H. reflexivity.
+Qed.
+
+Definition oall {A} (P : A -> Prop) (o : option A) : Prop := match o with Some x => P x | None => True end.
+Definition tt_ok {A} (_ : A) : Prop := True.
+Lemma oall_tt {A} (o : option A) : oall tt_ok o.
+Proof. destruct o; exact Logic.I. Qed.
+Lemma Forall_tt {A} (l : list A) : Forall tt_ok l.
+Proof. induction l; constructor; [exact Logic.I | assumption]. Qed.
+
+(* a leaf parser reads back what the renderer wrote into one element *)
+Definition leaf {A B} (p : P B) (sh : A -> str) (nm : A -> B) (ok : A -> Prop) : Prop :=
+  forall tag attrs x k, ok x -> p (Elem tag attrs (txt (sh x)) :: k) = Ok (nm x, k).
+
+Lemma parse_if_ropt {A B} tag (p : P B) (sh : A -> str) nm ok o k :
+  leaf p sh nm ok -> oall ok o -> hn [tag] k -> parse_if tag p (ropt tag sh o k) = Ok (option_map nm o, k).
+Proof.
+  intros L W H. destruct o as [x|]; cbn [ropt option_map].
+  - apply parse_if_present. apply L. exact W.
+  - apply parse_if_absent. exact H.
+Qed.
+Lemma parse_if_ropt_id {A} tag (p : P A) (sh : A -> str) ok o k :
+  leaf p sh (fun x => x) ok -> oall ok o -> hn [tag] k -> parse_if tag p (ropt tag sh o k) = Ok (o, k).
+Proof.
+  intros L W H. rewrite (parse_if_ropt tag p sh (fun x => x) ok o k L W H). destruct o; reflexivity.
+Qed.
+
+Lemma loop_rmany {A B} tag (p : P B) (sh : A -> str) nm ok k :
+  leaf p sh nm ok -> hn [tag] k -> forall l, Forall ok l -> forall fuel, (List.length l < fuel)%nat ->
+  loop_f fuel (parse_if tag p) (rmany tag sh l k) = Ok (map nm l, k).
+Proof.
+  intros L H. induction l as [|x l IH]; intros W fuel Hf; (destruct fuel as [|f]; [cbn in Hf; lia|]).
+  - cbn [loop_f rmany map app]. eapply bind_step; [apply parse_if_absent; exact H | reflexivity].
+  - inversion W; subst. cbn [loop_f]. unfold rmany. cbn [map app].
+    eapply bind_step; [apply parse_if_present; apply L; assumption|].
+    cbn beta iota. eapply bind_step; [apply IH; [assumption | cbn in Hf; lia] | reflexivity].
+Qed.
+Lemma parse_while_rmany {A B} tag (p : P B) (sh : A -> str) nm ok l k :
+  leaf p sh nm ok -> Forall ok l -> hn [tag] k -> parse_while tag p (rmany tag sh l k) = Ok (map nm l, k).
+Proof.
+  intros L W H. unfold parse_while, loop. apply (loop_rmany tag p sh nm ok k L H l W).
+  unfold rmany. rewrite app_length, map_length. lia.
+Qed.
+Lemma parse_while_rmany_id {A} tag (p : P A) (sh : A -> str) ok l k :
+  leaf p sh (fun x => x) ok -> Forall ok l -> hn [tag] k -> parse_while tag p (rmany tag sh l k) = Ok (l, k).
+Proof. intros L W H. rewrite (parse_while_rmany tag p sh (fun x => x) ok l k L W H). now rewrite map_id. Qed.
+
+(* leaves *)
+Lemma next_text_el tag attrs s k : next_text (Elem tag attrs (txt s) :: k) = Ok (s, k).
+Proof. unfold next_text. cbn [peek]. now rewrite text_of_txt. Qed.
+
+Lemma leaf_string : leaf p_string sid (fun x => x) tt_ok.
+Proof. intros tag attrs x k _. apply next_text_el. Qed.
+Lemma leaf_nodeid : leaf p_nodeid sid (fun x => x) tt_ok.
+Proof. exact leaf_string. Qed.
+Lemma leaf_text {A B} (sh : A -> str) (nm : A -> B) (ok : A -> Prop) (conv : str -> outcome B) :
+  (forall x, ok x -> conv (sh x) = Ok (nm x)) -> leaf (let! t := next_text in lift (conv t)) sh nm ok.
+Proof.
+  intros H tag attrs x k W. eapply bind_step; [apply next_text_el|]. unfold lift. now rewrite (H x W).
+Qed.
+Lemma leaf_bool : leaf p_bool sh_blit bl_val tt_ok.
+Proof. apply leaf_text. intros x _. apply bool_sh. Qed.
+Lemma leaf_i64 : leaf p_i64 sh_ilit il_val wf_i64.
+Proof. apply leaf_text. exact convert_to_int_sh. Qed.
+Lemma leaf_u64 : leaf p_u64 sh_ilit il_val wf_u64.
+Proof. apply leaf_text. exact convert_to_uint_sh. Qed.
+Lemma leaf_hex64 : leaf p_hex64 sh_hlit hl_val wf_h64.
+Proof. apply leaf_text. exact hex64_sh. Qed.
+Lemma leaf_f64 : leaf p_f64 sh_fval (fun x => x) wf_f.
+Proof.
+  intros tag attrs x k W. eapply bind_step; [apply next_text_el|]. unfold ret. now rewrite (f64_sh x W).
+Qed.
+Lemma leaf_enum {A} (tbl : list (str * A)) (name : A -> str) :
+  (forall x, assoc_str (name x) tbl = Some x) -> leaf (p_enum tbl) name (fun x => x) tt_ok.
+Proof.
+  intros H tag attrs x k _. eapply bind_step; [apply next_text_el|]. now rewrite H.
+Qed.
+Lemma leaf_vis : leaf (p_enum vis_tbl) vis_name (fun x => x) tt_ok.
+Proof. apply leaf_enum. intros []; reflexivity. Qed.
+Lemma leaf_access : leaf (p_enum access_tbl) access_name (fun x => x) tt_ok.
+Proof. apply leaf_enum. intros []; reflexivity. Qed.
+Lemma leaf_caching : leaf (p_enum caching_tbl) caching_name (fun x => x) tt_ok.
+Proof. apply leaf_enum. intros []; reflexivity. Qed.
+Lemma leaf_irep : leaf (p_enum irep_tbl) irep_name (fun x => x) tt_ok.
+Proof. apply leaf_enum. intros []; reflexivity. Qed.
+Lemma leaf_frep : leaf (p_enum frep_tbl) frep_name (fun x => x) tt_ok.
+Proof. apply leaf_enum. intros []; reflexivity. Qed.
+Lemma leaf_dnot : leaf (p_enum dnot_tbl) dnot_name (fun x => x) tt_ok.
+Proof. apply leaf_enum. intros []; reflexivity. Qed.
+Lemma leaf_sign : leaf (p_enum sign_tbl) sign_name (fun x => x) tt_ok.
+Proof. apply leaf_enum. intros []; reflexivity. Qed.
+Lemma leaf_endian : leaf (p_enum endian_tbl) endian_name (fun x => x) tt_ok.
+Proof. apply leaf_enum. intros []; reflexivity. Qed.
+
+Ltac leaf_tac :=
+  first [ exact leaf_string | exact leaf_nodeid | exact leaf_bool | exact leaf_i64 | exact leaf_u64
+        | exact leaf_hex64 | exact leaf_f64 | exact leaf_vis | exact leaf_access | exact leaf_caching
+        | exact leaf_irep | exact leaf_frep | exact leaf_dnot | exact leaf_sign | exact leaf_endian ].
+Ltac wf_tac := first [ apply oall_tt | apply Forall_tt | assumption | exact Logic.I ].
+
+(* one optional / repeated element of the rendered list is consumed *)
+Ltac step :=
+  eapply bind_step;
+  [ first [ eapply parse_if_ropt_id; [leaf_tac | wf_tac | solve [hn_tac]]
+          | eapply parse_if_ropt; [leaf_tac | wf_tac | solve [hn_tac]]
+          | eapply parse_while_rmany_id; [leaf_tac | wf_tac | solve [hn_tac]]
+          | eapply parse_while_rmany; [leaf_tac | wf_tac | solve [hn_tac]] ]
+  | cbn beta ].
+
+(* ---------------------------------------------------------------------------------------------- *)
+(* NodeAttributeBase, NodeElementBase                                                               *)
+
+Lemma attribute_of_r_attr a :
+  attribute_of T_Name (r_attr a) = Some (a_name a) /\
+  attribute_of T_NameSpace (r_attr a) = option_map namespace_name (a_ns a) /\
+  attribute_of T_MergePriority (r_attr a) = option_map mergeprio_name (a_mp a) /\
+  attribute_of T_ExposeStatic (r_attr a) = option_map sh_blit (a_es a).
+Proof.
+  destruct a as [n ns mp es]. cbn [a_name a_ns a_mp a_es]. unfold r_attr. cbn [a_name a_ns a_mp a_es].
+  destruct ns, mp, es; repeat split; reflexivity.
+Qed.
+
+Lemma parse_attr_rt a : parse_attr (r_attr a) = Ok (n_attr a).
+Proof.
+  destruct (attribute_of_r_attr a) as (H1 & H2 & H3 & H4).
+  unfold parse_attr. rewrite H1, H2, H3, H4. unfold n_attr.
+  destruct a as [n ns mp es]. cbn [a_name a_ns a_mp a_es option_map].
+  destruct ns as [[]|], mp as [[]|], es as [[[] []]|]; reflexivity.
+Qed.
+
+Definition eb_tags : list str :=
+  [T_Extension; T_ToolTip; T_Description; T_DisplayName; T_Visibility; T_DocuURL; T_IsDeprecated; T_EventID;
+   T_pIsImplemented; T_pIsAvailable; T_pIsLocked; T_pBlockPolling; T_ImposedAccessMode; T_pError; T_pAlias;
+   T_pCastAlias; T_pInvalidator].
+
+Definition wf_eb (e : eb Src) : Prop := oall wf_h64 (eb_event e).
+
+Lemma p_eb_rt e k : wf_eb e -> hn eb_tags k -> p_eb (r_eb e k) = Ok (n_eb e, k).
+Proof.
+  intros W H. unfold wf_eb in W. unfold p_eb, r_eb.
+  assert (E : exists x, parse_if T_Extension p_string
+     ((match eb_ext e with Some ch => fun k => Elem T_Extension [] ch :: k | None => fun k => k end)
+      (ropt T_ToolTip sid (eb_tooltip e) (ropt T_Description sid (eb_description e)
+      (ropt T_DisplayName sid (eb_display_name e) (ropt T_Visibility vis_name (eb_vis e)
+      (ropt T_DocuURL sid (eb_docu_url e) (ropt T_IsDeprecated sh_blit (eb_deprecated e)
+      (ropt T_EventID sh_hlit (eb_event e) (ropt T_pIsImplemented sid (eb_impl e)
+      (ropt T_pIsAvailable sid (eb_avail e) (ropt T_pIsLocked sid (eb_locked e)
+      (ropt T_pBlockPolling sid (eb_block e) (ropt T_ImposedAccessMode access_name (eb_imposed e)
+      (rmany T_pError sid (eb_errors e) (ropt T_pAlias sid (eb_alias e) (ropt T_pCastAlias sid (eb_cast e)
+      (rmany T_pInvalidator sid (eb_invs e) k))))))))))))))))) =
+     Ok (x, ropt T_ToolTip sid (eb_tooltip e) (ropt T_Description sid (eb_description e)
+      (ropt T_DisplayName sid (eb_display_name e) (ropt T_Visibility vis_name (eb_vis e)
+      (ropt T_DocuURL sid (eb_docu_url e) (ropt T_IsDeprecated sh_blit (eb_deprecated e)
+      (ropt T_EventID sh_hlit (eb_event e) (ropt T_pIsImplemented sid (eb_impl e)
+      (ropt T_pIsAvailable sid (eb_avail e) (ropt T_pIsLocked sid (eb_locked e)
+      (ropt T_pBlockPolling sid (eb_block e) (ropt T_ImposedAccessMode access_name (eb_imposed e)
+      (rmany T_pError sid (eb_errors e) (ropt T_pAlias sid (eb_alias e) (ropt T_pCastAlias sid (eb_cast e)
+      (rmany T_pInvalidator sid (eb_invs e) k))))))))))))))))).
+  { destruct (eb_ext e) as [ch|].
+    - eexists. apply parse_if_present. reflexivity.
+    - eexists. apply parse_if_absent. hn_tac. }
+  destruct E as (x & E). eapply bind_step; [exact E|]. cbn beta.
+  do 16 step.
+  reflexivity.
+Qed.
+
+Lemma with_attr_rt {A} a (f : attr Par -> P A) : with_attr (r_attr a) f = f (n_attr a).
+Proof. unfold with_attr. now rewrite parse_attr_rt. Qed.
+
+(* ---------------------------------------------------------------------------------------------- *)
+(* ImmOrPNode sniffing                                                                              *)
+
+Definition ileaf {L L'} (pimm : P (imm L')) (sh : L -> str) (nm : L -> L') (okL : L -> Prop) (okN : str -> Prop) : Prop :=
+  (forall tag attrs l k, okL l -> pimm (Elem tag attrs (txt (sh l)) :: k) = Ok (Imm (nm l), k)) /\
+  (forall tag attrs n k, okN n -> pimm (Elem tag attrs (txt n) :: k) = Ok (PNode n, k)).
+
+Lemma peek_text_el tag attrs s k : peek_text (Elem tag attrs (txt s) :: k) = Ok (s, Elem tag attrs (txt s) :: k).
+Proof. unfold peek_text. cbn [peek]. now rewrite text_of_txt. Qed.
+
+Lemma mapP_leaf {A B C} (p : P B) (sh : A -> str) nm ok (g : B -> C) tag attrs x k :
+  leaf p sh nm ok -> ok x -> mapP g p (Elem tag attrs (txt (sh x)) :: k) = Ok (g (nm x), k).
+Proof. intros L W. unfold mapP. eapply bind_step; [apply L; exact W | reflexivity]. Qed.
+
+Lemma ileaf_i64 : ileaf p_imm_i64 sh_ilit il_val wf_i64 ident.
+Proof.
+  split.
+  - intros tag attrs l k W. unfold p_imm_i64. eapply bind_step; [apply peek_text_el|]. cbn beta.
+    destruct (sh_ilit_head l (or_introl W)) as (c & r & E & HA).
+    assert (G : forall s cur, s = c :: r ->
+              (match s with [] => fail | c0 :: _ => if is_alpha c0 then mapP PNode p_nodeid else mapP Imm p_i64 end) cur
+              = mapP Imm p_i64 cur) by (intros s cur ->; now rewrite HA).
+    rewrite (G _ _ E).
+    apply (mapP_leaf p_i64 sh_ilit il_val wf_i64 Imm); [exact leaf_i64 | exact W].
+  - intros tag attrs n k (c & r & -> & HA). unfold p_imm_i64.
+    eapply bind_step; [apply peek_text_el|]. cbn beta iota. rewrite HA.
+    apply (mapP_leaf p_nodeid sid (fun x => x) tt_ok PNode tag attrs (c :: r) k leaf_nodeid Logic.I).
+Qed.
+
+Definition wf_fs (f : fval) : Prop := wf_f f /\ sniff_f f.
+
+Lemma ileaf_f64 : ileaf p_imm_f64 sh_fval (fun x => x) wf_fs ident_f.
+Proof.
+  split.
+  - intros tag attrs l k [W S]. unfold p_imm_f64. eapply bind_step; [apply peek_text_el|]. cbn beta.
+    assert (G : mapP Imm p_f64 (Elem tag attrs (txt (sh_fval l)) :: k) = Ok (Imm l, k))
+      by (apply (mapP_leaf p_f64 sh_fval (fun x => x) wf_f Imm); [exact leaf_f64 | exact W]).
+    destruct l as [| |t|b]; [exact G | exact G | | destruct W].
+    cbn [sh_fval] in *. destruct W as [W1 W2]. rewrite W1, W2. cbn [orb].
+    destruct S as [->|(c & r & -> & HA)]; [exact G|].
+    destruct (str_eqb (c :: r) L_NaN); [exact G|]. rewrite HA. exact G.
+  - intros tag attrs n k ((c & r & -> & HA) & N1 & N2). unfold p_imm_f64.
+    eapply bind_step; [apply peek_text_el|]. cbn beta. rewrite N1, N2.
+    assert (N3 : str_eqb (c :: r) L_NegINF = false).
+    { cbn. destruct (c =? 45) eqn:E; [|reflexivity]. apply Z.eqb_eq in E. subst. discriminate. }
+    rewrite N3, HA. cbn [orb].
+    apply (mapP_leaf p_nodeid sid (fun x => x) tt_ok PNode tag attrs (c :: r) k leaf_nodeid Logic.I).
+Qed.
+
+Lemma ileaf_bool : ileaf p_imm_bool sh_blit bl_val tt_ok ident_b.
+Proof.
+  split.
+  - intros tag attrs l k _. unfold p_imm_bool. eapply bind_step; [apply peek_text_el|]. cbn beta.
+    rewrite bool_opt_sh. apply (mapP_leaf p_bool sh_blit bl_val tt_ok Imm); [exact leaf_bool | exact Logic.I].
+  - intros tag attrs n k W. unfold p_imm_bool. eapply bind_step; [apply peek_text_el|]. cbn beta.
+    unfold ident_b in W. rewrite W.
+    apply (mapP_leaf p_nodeid sid (fun x => x) tt_ok PNode tag attrs n k leaf_nodeid Logic.I).
+Qed.
+
+Definition wf_imm {L} (okL : L -> Prop) (okN : str -> Prop) (x : imm L) : Prop :=
+  match x with Imm l => okL l | PNode n => okN n end.
+
+Lemma pimm_rimm {L L'} pimm (sh : L -> str) (nm : L -> L') okL okN tagI tagP x k :
+  ileaf pimm sh nm okL okN -> wf_imm okL okN x -> pimm (rimm tagI tagP sh x k) = Ok (imm_map nm x, k).
+Proof. intros [L1 L2] W. destruct x; [apply L1 | apply L2]; exact W. Qed.
+
+Lemma or_else_roimm {L L'} pimm (sh : L -> str) (nm : L -> L') okL okN tagI tagP o k :
+  ileaf pimm sh nm okL okN -> str_eqb tagP tagI = false -> oall (wf_imm okL okN) o -> hn [tagI; tagP] k ->
+  or_else (parse_if tagI pimm) (parse_if tagP pimm) (roimm tagI tagP sh o k) = Ok (option_map (imm_map nm) o, k).
+Proof.
+  intros [L1 L2] NE W H. unfold or_else. destruct o as [[l|n]|]; cbn [roimm rimm option_map imm_map oall wf_imm] in *.
+  - eapply bind_step; [apply parse_if_present; apply L1; exact W | reflexivity].
+  - eapply bind_step.
+    + apply parse_if_absent. unfold hn, el. cbn [peek mem_str existsb]. now rewrite NE.
+    + cbn beta iota. apply parse_if_present. apply L2. exact W.
+  - assert (H2 : hn [tagI] k /\ hn [tagP] k).
+    { unfold hn in *. destruct (peek k) as [[[[t a] ch] r]|]; [|split; exact Logic.I].
+      cbn [mem_str existsb] in *. apply orb_false_iff in H. destruct H as [Ha Hb].
+      apply orb_false_iff in Hb. destruct Hb as [Hb _]. rewrite Ha, Hb. split; reflexivity. }
+    destruct H2 as [Ha Hb].
+    eapply bind_step; [apply parse_if_absent; exact Ha|].
+    cbn beta iota. apply parse_if_absent. exact Hb.
+Qed.
+
+(* ---------------------------------------------------------------------------------------------- *)
+(* ValueKind                                                                                        *)
+
+Definition wf_vk {L} (okL : L -> Prop) (okN : str -> Prop) (v : svkind L) : Prop :=
+  match v with
+  | SvValue l => okL l
+  | SvPValue _ _ _ => True
+  | SvPIndex _ ixs d => Forall (fun p => wf_i64 (fst p) /\ wf_imm okL okN (snd p)) ixs /\ wf_imm okL okN d
+  end.
+
+Lemma p_value_indexed_el {L L'} pimm (sh : L -> str) (nm : L -> L') okL okN (p : ilit * imm L) k :
+  ileaf pimm sh nm okL okN -> wf_i64 (fst p) -> wf_imm okL okN (snd p) ->
+  let e := match snd p with
+           | Imm l => Elem T_ValueIndexed [(T_Index, sh_ilit (fst p))] (txt (sh l))
+           | PNode n => Elem T_pValueIndexed [(T_Index, sh_ilit (fst p))] (txt n)
+           end in
+  or_else (parse_if T_ValueIndexed (p_value_indexed pimm)) (parse_if T_pValueIndexed (p_value_indexed pimm)) (e :: k)
+  = Ok (Some (il_val (fst p), imm_map nm (snd p)), k).
+Proof.
+  intros [L1 L2] Wi Wv. destruct p as [i [l|n]]; cbn [fst snd wf_imm imm_map] in *; cbv zeta; unfold or_else.
+  - eapply bind_step.
+    + apply parse_if_present. unfold p_value_indexed.
+      eapply bind_step; [reflexivity|]. cbn beta iota. cbn [attribute_of]. rewrite str_eqb_refl.
+      rewrite (convert_to_int_sh i Wi). cbn [lift].
+      eapply bind_step; [reflexivity|]. cbn beta. eapply bind_step; [apply L1; exact Wv | reflexivity].
+    + reflexivity.
+  - eapply bind_step; [apply parse_if_absent; reflexivity|]. cbn beta iota.
+    apply parse_if_present. unfold p_value_indexed.
+    eapply bind_step; [reflexivity|]. cbn beta iota. cbn [attribute_of]. rewrite str_eqb_refl.
+      rewrite (convert_to_int_sh i Wi). cbn [lift].
+    eapply bind_step; [reflexivity|]. cbn beta. eapply bind_step; [apply L2; exact Wv | reflexivity].
+Qed.
+
+Lemma loop_r_ixs {L L'} pimm (sh : L -> str) (nm : L -> L') okL okN k :
+  ileaf pimm sh nm okL okN -> hn [T_ValueIndexed; T_pValueIndexed] k ->
+  forall ixs, Forall (fun p => wf_i64 (fst p) /\ wf_imm okL okN (snd p)) ixs ->
+  forall fuel, (List.length ixs < fuel)%nat ->
+  loop_f fuel (or_else (parse_if T_ValueIndexed (p_value_indexed pimm)) (parse_if T_pValueIndexed (p_value_indexed pimm)))
+         (r_ixs sh ixs k) = Ok (map (fun p => (il_val (fst p), imm_map nm (snd p))) ixs, k).
+Proof.
+  intros IL H. induction ixs as [|p ixs IH]; intros W fuel Hf; (destruct fuel as [|f]; [cbn in Hf; lia|]).
+  - cbn [loop_f r_ixs map app]. eapply bind_step.
+    + unfold or_else.
+      eapply bind_step; [apply parse_if_absent; eapply hn_incl; [exact H | reflexivity]|]. cbn beta iota.
+      apply parse_if_absent. eapply hn_incl; [exact H | reflexivity].
+    + reflexivity.
+  - inversion W as [|? ? [W1 W2] W']; subst. cbn [loop_f]. unfold r_ixs. cbn [map app].
+    eapply bind_step; [apply (p_value_indexed_el pimm sh nm okL okN p _ IL W1 W2)|]. cbn beta iota.
+    eapply bind_step; [apply IH; [exact W' | cbn in Hf; lia] | reflexivity].
+Qed.
+
+Lemma p_vkind_rt {L L'} (pT : P L') pimm (sh : L -> str) (nm : L -> L') okL okN v k :
+  leaf pT sh nm okL -> ileaf pimm sh nm okL okN -> wf_vk okL okN v -> hn [T_pValueCopy] k ->
+  p_vkind pT pimm (r_vk sh v k) = Ok (n_vk nm v, k).
+Proof.
+  intros LT IL W H. unfold p_vkind. destruct v as [l|before pv after|pi ixs d]; cbn [r_vk n_vk wf_vk] in *.
+  - eapply bind_step; [reflexivity|]. cbn beta. rewrite str_eqb_refl.
+    apply (mapP_leaf pT sh nm okL VkValue); assumption.
+  - assert (PV : p_pvalue (rmany T_pValueCopy sid before (el T_pValue pv :: rmany T_pValueCopy sid after k))
+                 = Ok ((pv, before ++ after), k)).
+    { unfold p_pvalue.
+      eapply bind_step; [eapply parse_while_rmany_id; [exact leaf_nodeid | apply Forall_tt | hn_tac]|]. cbn beta.
+      eapply bind_step; [apply (leaf_nodeid T_pValue [] pv); exact Logic.I|]. cbn beta.
+      eapply bind_step; [eapply parse_while_rmany_id; [exact leaf_nodeid | apply Forall_tt | exact H]|].
+      reflexivity. }
+    destruct before as [|b0 before].
+    + eapply bind_step; [reflexivity|]. cbn beta.
+      change (str_eqb T_pValue T_Value) with false. change (str_eqb T_pValue T_pValueCopy) with false.
+      rewrite str_eqb_refl. cbn [orb]. eapply bind_step; [exact PV | reflexivity].
+    + eapply bind_step; [reflexivity|]. cbn beta.
+      change (str_eqb T_pValueCopy T_Value) with false. rewrite str_eqb_refl. cbn [orb].
+      eapply bind_step; [exact PV | reflexivity].
+  - destruct W as [W1 W2].
+    eapply bind_step; [reflexivity|]. cbn beta.
+    change (str_eqb T_pIndex T_Value) with false. change (str_eqb T_pIndex T_pValueCopy) with false.
+    change (str_eqb T_pIndex T_pValue) with false. rewrite str_eqb_refl. cbn [orb].
+    assert (PI : p_pindex pimm (el T_pIndex pi :: r_ixs sh ixs (rimm T_ValueDefault T_pValueDefault sh d k)) =
+      Ok ((pi, map (fun p => (il_val (fst p), imm_map nm (snd p))) ixs, imm_map nm d), k)).
+    { unfold p_pindex.
+    eapply bind_step; [apply (leaf_nodeid T_pIndex [] pi); exact Logic.I|]. cbn beta.
+    eapply bind_step.
+    { unfold loop. eapply (loop_r_ixs pimm sh nm okL okN _ IL); [|exact W1|].
+      - destruct d; apply hn_elem; reflexivity.
+      - unfold r_ixs. rewrite app_length, map_length. lia. }
+      cbn beta. eapply bind_step; [apply (pimm_rimm pimm sh nm okL okN _ _ d k IL W2)|]. reflexivity. }
+    eapply bind_step; [exact PI | reflexivity].
+Qed.
+
+(* ---------------------------------------------------------------------------------------------- *)
+(* node kinds built on the element base                                                             *)
+
+Lemma hn_r_vk {L} ts (sh : L -> str) v k :
+  mem_str T_Value ts = false -> mem_str T_pValueCopy ts = false -> mem_str T_pValue ts = false ->
+  mem_str T_pIndex ts = false -> hn ts (r_vk sh v k).
+Proof. intros H1 H2 H3 H4. destruct v as [l|[|b before] pv after|pi ixs d]; assumption. Qed.
+
+Ltac hn_tac ::=
+  repeat first
+    [ apply hn_nil
+    | apply hn_elem; reflexivity
+    | apply hn_ropt; [reflexivity|]
+    | apply hn_rmany; [reflexivity|]
+    | apply hn_rimm; [reflexivity|reflexivity]
+    | apply hn_roimm; [reflexivity|reflexivity|]
+    | apply hn_r_vk; reflexivity
+    | (eapply hn_incl; [eassumption|reflexivity]) ].
+
+Ltac eb_step W :=
+  eapply bind_step; [ apply p_eb_rt; [exact W | solve [hn_tac]] | cbn beta ].
+
+Definition wf_plain (n : plain Src) : Prop := wf_eb (pl_eb n).
+Lemma plain_rt n : wf_plain n -> p_plain (r_attr (pl_attr n)) (r_eb (pl_eb n) []) = Ok (n_plain n, []).
+Proof. intros W. unfold p_plain. rewrite with_attr_rt. eb_step W. reflexivity. Qed.
+
+Definition wf_category (n : category Src) : Prop := wf_eb (ca_eb n).
+Lemma category_rt n : wf_category n ->
+  p_category (r_attr (ca_attr n)) (r_eb (ca_eb n) (rmany T_pFeature sid (ca_features n) [])) = Ok (n_category n, []).
+Proof. intros W. unfold p_category. rewrite with_attr_rt. eb_step W. step. reflexivity. Qed.
+
+Definition wf_imm_i := wf_imm wf_i64 ident.
+
+Definition wf_integer (n : integer Src) : Prop :=
+  wf_eb (i_eb n) /\ wf_vk wf_i64 ident (i_value n) /\ oall wf_imm_i (i_min n) /\ oall wf_imm_i (i_max n) /\
+  oall wf_imm_i (i_inc n).
+
+Ltac oimm_step IL :=
+  eapply bind_step; [ eapply (or_else_roimm _ _ _ _ _ _ _ _ _ IL); [reflexivity | assumption | solve [hn_tac]] | cbn beta ].
+
+Lemma integer_rt n : wf_integer n ->
+  match r_integer n with Elem _ attrs ch => p_integer attrs ch | _ => fail [] end = Ok (n_integer n, []).
+Proof.
+  intros (W1 & W2 & W3 & W4 & W5). unfold r_integer, p_integer. rewrite with_attr_rt.
+  eb_step W1. step.
+  eapply bind_step; [apply (p_vkind_rt p_i64 p_imm_i64 sh_ilit il_val wf_i64 ident _ _ leaf_i64 ileaf_i64 W2); hn_tac|].
+  cbn beta.
+  oimm_step ileaf_i64. oimm_step ileaf_i64. oimm_step ileaf_i64.
+  step. step. step. reflexivity.
+Qed.
+
+Definition wf_boolean (n : boolean Src) : Prop :=
+  wf_eb (b_eb n) /\ wf_imm tt_ok ident_b (b_value n) /\ oall wf_i64 (b_on n) /\ oall wf_i64 (b_off n).
+
+Lemma boolean_rt n : wf_boolean n ->
+  match r_boolean n with Elem _ attrs ch => p_boolean attrs ch | _ => fail [] end = Ok (n_boolean n, []).
+Proof.
+  intros (W1 & W2 & W3 & W4). unfold r_boolean, p_boolean. rewrite with_attr_rt.
+  eb_step W1. step.
+  eapply bind_step; [apply (pimm_rimm p_imm_bool sh_blit bl_val tt_ok ident_b _ _ _ _ ileaf_bool W2)|]. cbn beta.
+  step. step. step. unfold n_boolean. destruct (b_value n); reflexivity.
+Qed.
+
+Definition wf_command (n : command Src) : Prop :=
+  wf_eb (c_eb n) /\ wf_imm_i (c_value n) /\ wf_imm_i (c_command_value n) /\ oall wf_u64 (c_polling n).
+
+Lemma command_rt n : wf_command n ->
+  match r_command n with Elem _ attrs ch => p_command attrs ch | _ => fail [] end = Ok (n_command n, []).
+Proof.
+  intros (W1 & W2 & W3 & W4). unfold r_command, p_command. rewrite with_attr_rt.
+  eb_step W1.
+  eapply bind_step; [apply (pimm_rimm p_imm_i64 sh_ilit il_val wf_i64 ident _ _ _ _ ileaf_i64 W2)|]. cbn beta.
+  eapply bind_step; [apply (pimm_rimm p_imm_i64 sh_ilit il_val wf_i64 ident _ _ _ _ ileaf_i64 W3)|]. cbn beta.
+  step. reflexivity.
+Qed.
+
+Definition wf_imm_f := wf_imm wf_fs ident_f.
+Definition wf_float (n : floatn Src) : Prop :=
+  wf_eb (f_eb n) /\ wf_vk wf_fs ident_f (f_value n) /\ oall wf_imm_f (f_min n) /\ oall wf_imm_f (f_max n) /\
+  oall wf_imm_f (f_inc n) /\ oall wf_i64 (f_dprec n).
+
+Lemma leaf_f64s : leaf p_f64 sh_fval (fun x => x) wf_fs.
+Proof. intros tag attrs x k [W _]. apply leaf_f64. exact W. Qed.
+
+Lemma option_map_imm_id {L} (o : option (imm L)) : option_map (imm_map (fun x => x)) o = o.
+Proof. destruct o as [[|]|]; reflexivity. Qed.
+
+Lemma float_rt n : wf_float n ->
+  match r_float n with Elem _ attrs ch => p_float attrs ch | _ => fail [] end = Ok (n_float n, []).
+Proof.
+  intros (W1 & W2 & W3 & W4 & W5 & W6). unfold r_float, p_float, r_float_tail. rewrite with_attr_rt.
+  eb_step W1. step.
+  eapply bind_step; [apply (p_vkind_rt p_f64 p_imm_f64 sh_fval (fun x => x) wf_fs ident_f _ _ leaf_f64s ileaf_f64 W2); hn_tac|].
+  cbn beta.
+  oimm_step ileaf_f64. oimm_step ileaf_f64. oimm_step ileaf_f64.
+  step. step. step. step. rewrite !option_map_imm_id. reflexivity.
+Qed.
+
+Definition wf_stringn (n : stringn Src) : Prop := wf_eb (s_eb n).
+Lemma stringn_rt n : wf_stringn n ->
+  match r_stringn n with Elem _ attrs ch => p_stringn attrs ch | _ => fail [] end = Ok (n_stringn n, []).
+Proof.
+  intros W. unfold r_stringn, p_stringn. rewrite with_attr_rt. eb_step W. step.
+  unfold n_stringn. destruct (s_value n) as [v|p]; cbn [rimm].
+  - eapply bind_step; [reflexivity|]. cbn beta iota.
+    rewrite text_of_txt. reflexivity.
+  - eapply bind_step; [reflexivity|]. cbn beta iota.
+    eapply bind_step; [apply (mapP_leaf next_text sid (fun x => x) tt_ok PNode _ _ p _ leaf_string Logic.I)|].
+    reflexivity.
+Qed.
+
+Lemma next_if_absent tag c : hn [tag] c -> next_if tag c = Ok (None, c).
+Proof.
+  unfold next_if, hn. destruct (peek c) as [[[[t a] ch] r]|]; [|reflexivity].
+  cbn. rewrite orb_false_r. intros ->. reflexivity.
+Qed.
+
+Definition wf_port (n : port Src) : Prop := wf_eb (po_eb n) /\ oall (wf_imm wf_h64 tt_ok) (po_chunk n).
+Lemma port_rt n : wf_port n ->
+  match r_port n with Elem _ attrs ch => p_port attrs ch | _ => fail [] end = Ok (n_port n, []).
+Proof.
+  intros (W1 & W2). unfold r_port, p_port. rewrite with_attr_rt. eb_step W1.
+  unfold n_port. destruct (po_chunk n) as [[h|p]|]; cbn [roimm rimm oall wf_imm option_map imm_map] in *.
+  - eapply bind_step; [reflexivity|]. cbn beta iota.
+    rewrite text_of_txt, (hex64_sh h W2). cbn [lift bindP ret]. unfold bindP, lift, ret. cbn beta iota.
+    step. step. reflexivity.
+  - eapply bind_step; [reflexivity|]. cbn beta iota.
+    eapply bind_step; [reflexivity|]. cbn beta iota.
+    rewrite text_of_txt. unfold ret at 1. unfold bindP at 1. cbn beta iota.
+    step. step. reflexivity.
+  - eapply bind_step; [apply next_if_absent; solve [hn_tac]|].
+    cbn beta iota.
+    eapply bind_step; [eapply bind_step; [apply next_if_absent; solve [hn_tac] | reflexivity]|].
+    cbn beta iota. step. step. reflexivity.
+Qed.
